@@ -32,22 +32,26 @@ EXTENDS Integers, FiniteSets, Sequences, TLC
 CONSTANTS Depth,          \* nodes on file below each other
           MaxVer,         \* overwrites of the top key by the mutator
           MaxNodes,       \* bound on memory nodes
-          FlagLateLoads   \* TRUE = the code (nodeLoc.lateLoad)
+          FlagLateLoads,  \* TRUE = the code (nodeLoc.lateLoad)
+          MaxFail,        \* abandoned (failed) overwrites
+          ClearFlags,     \* TRUE = the code: reclaimMarkClear lowers the flags of the nodes it un-marks
+          RecomputeFlags  \* TRUE = the code: markReclaimable recomputes the flags (FALSE: only ever raises them)
 
 VARIABLES mem,        \* sequence of memory nodes
           root,       \* [version -> memory node of the top node]  (0 = not fetched: the root location is shared by all handles of one version)
           cur,        \* newest version
           snapOpen,   \* the snapshot (pins version 0) is open
           mainOpen,   \* the store is open
-          released    \* versions whose marked nodes have been recycled
+          released,   \* versions whose marked nodes have been recycled
+          fails       \* abandoned overwrites so far
 
-vars == <<mem, root, cur, snapOpen, mainOpen, released>>
+vars == <<mem, root, cur, snapOpen, mainOpen, released, fails>>
 
 Node(slot) == [slot |-> slot, kid |-> 0, late |-> FALSE, mark |-> -1, free |-> FALSE]
 Ids == 1..Len(mem)
 
 Init == /\ mem = <<>> /\ root = [v \in 0..MaxVer |-> 0] /\ cur = 0
-        /\ snapOpen = TRUE /\ mainOpen = TRUE /\ released = {}
+        /\ snapOpen = TRUE /\ mainOpen = TRUE /\ released = {} /\ fails = 0
 
 (* fetch the top node of version v (both handles of a version share the root location) *)
 FetchRoot(v) ==
@@ -55,7 +59,7 @@ FetchRoot(v) ==
   /\ (v = 0 /\ snapOpen) \/ (v = cur /\ mainOpen)
   /\ mem' = Append(mem, Node(1))
   /\ root' = [root EXCEPT ![v] = Len(mem) + 1]
-  /\ UNCHANGED <<cur, snapOpen, mainOpen, released>>
+  /\ UNCHANGED <<cur, snapOpen, mainOpen, released, fails>>
 
 \* memory nodes reachable from the top node of version v
 RECURSIVE Below(_, _)
@@ -68,7 +72,7 @@ FetchKid(v, n) ==
   /\ n \in Reach(v) /\ ~mem[n].free
   /\ mem[n].kid = 0 /\ mem[n].slot < Depth /\ Len(mem) < MaxNodes
   /\ mem' = Append([mem EXCEPT ![n].kid = Len(mem) + 1], Node(mem[n].slot + 1))
-  /\ UNCHANGED <<root, cur, snapOpen, mainOpen, released>>
+  /\ UNCHANGED <<root, cur, snapOpen, mainOpen, released, fails>>
 
 (* the mutator overwrites the key at depth d: the nodes 1..d on the path of
    the newest version (the walk down has fetched them) are replaced by copies
@@ -78,6 +82,23 @@ FetchKid(v, n) ==
 RECURSIVE PathNode(_, _, _)
 PathNode(n, j, m) == IF j = 1 THEN n ELSE PathNode(m[n].kid, j - 1, m)   \* j-th node below (and including) n
 PathLoaded(d) == Cardinality(Reach(cur)) >= d
+\* the flag markReclaimable leaves on the child location of node n
+NewFlag(n) == LET computed == FlagLateLoads /\ mem[n].kid = 0 /\ mem[n].slot < Depth
+              IN IF RecomputeFlags THEN computed ELSE (mem[n].late \/ computed)
+
+(* an overwrite that is abandoned half-way (a file error after the nodes on
+   the path were already marked): reclaimMarkClear un-marks them again; the
+   version stays current.  (The copies the abandoned mutation had built are
+   simply dropped: outside this model.) *)
+FailedOverwrite(d) ==
+  /\ mainOpen /\ fails < MaxFail /\ d \in 1..Depth /\ root[cur] # 0 /\ PathLoaded(d)
+  /\ mem' = [n \in Ids |->
+               IF \E j \in 1..d : PathNode(root[cur], j, mem) = n
+               THEN [mem[n] EXCEPT !.late = IF ClearFlags THEN FALSE ELSE NewFlag(n)]
+               ELSE mem[n]]
+  /\ fails' = fails + 1
+  /\ UNCHANGED <<root, cur, snapOpen, mainOpen, released>>
+
 Overwrite(d) ==
   /\ mainOpen /\ cur < MaxVer /\ d \in 1..Depth /\ root[cur] # 0 /\ PathLoaded(d)
   /\ Len(mem) + d <= MaxNodes
@@ -85,15 +106,14 @@ Overwrite(d) ==
          old(j) == PathNode(root[cur], j, mem)
          marked == [n \in Ids |->
                       IF \E j \in 1..d : old(j) = n
-                      THEN [mem[n] EXCEPT !.mark = cur,
-                                          !.late = FlagLateLoads /\ mem[n].kid = 0 /\ mem[n].slot < Depth]
+                      THEN [mem[n] EXCEPT !.mark = cur, !.late = NewFlag(n)]
                       ELSE mem[n]]
          copies == [j \in 1..d |->
                       [Node(j) EXCEPT !.kid = IF j < d THEN base + j + 1 ELSE mem[old(d)].kid]]
      IN /\ mem' = marked \o copies
         /\ root' = [root EXCEPT ![cur + 1] = base + 1]
         /\ cur' = cur + 1
-  /\ UNCHANGED <<snapOpen, mainOpen, released>>
+  /\ UNCHANGED <<snapOpen, mainOpen, released, fails>>
 
 (* version v can be released once nobody holds it: the snapshot holds 0 and, *)
 (* through the chain, every later version up to the newest; the store holds   *)
@@ -116,13 +136,13 @@ Release(v) ==
   /\ mem' = IF v < cur THEN Recycle(root[v], v, FALSE, mem)
             ELSE \* the newest version, nobody left: its whole tree goes (closeCollection marks it all)
                  Recycle(root[v], v, TRUE, mem)
-  /\ UNCHANGED <<root, cur, snapOpen, mainOpen>>
+  /\ UNCHANGED <<root, cur, snapOpen, mainOpen, fails>>
 
-CloseSnap == /\ snapOpen /\ snapOpen' = FALSE /\ UNCHANGED <<mem, root, cur, mainOpen, released>>
-CloseMain == /\ mainOpen /\ mainOpen' = FALSE /\ UNCHANGED <<mem, root, cur, snapOpen, released>>
+CloseSnap == /\ snapOpen /\ snapOpen' = FALSE /\ UNCHANGED <<mem, root, cur, mainOpen, released, fails>>
+CloseMain == /\ mainOpen /\ mainOpen' = FALSE /\ UNCHANGED <<mem, root, cur, snapOpen, released, fails>>
 
 Next == \/ \E v \in 0..MaxVer : FetchRoot(v) \/ Release(v) \/ (\E n \in Ids : FetchKid(v, n))
-        \/ (\E d \in 1..Depth : Overwrite(d)) \/ CloseSnap \/ CloseMain
+        \/ (\E d \in 1..Depth : Overwrite(d) \/ FailedOverwrite(d)) \/ CloseSnap \/ CloseMain
 Spec == Init /\ [][Next]_vars
 
 (* ------------------------------ properties ---------------------------- *)
